@@ -157,10 +157,10 @@ func init() {
 			delField := r.P.Field("dkv/wal", "Entry", "Deleted")
 			// find the range loop over the WAL entries: the loop whose body calls Put/Delete
 			var loops []*ast.RangeStmt
-			ast.Inspect(f.Decl.Body, func(n ast.Node) bool {
+			inspect(f.Decl.Body, func(n ast.Node) bool {
 				if rs, ok := n.(*ast.RangeStmt); ok {
 					found := false
-					ast.Inspect(rs.Body, func(m ast.Node) bool {
+					inspect(rs.Body, func(m ast.Node) bool {
 						if call, ok := m.(*ast.CallExpr); ok {
 							if fn := r.P.CalleeFunc(f.Pkg.TypesInfo, call); fn == put || fn == del {
 								found = true
@@ -250,7 +250,7 @@ func init() {
 // mentionsType reports whether expression e syntactically constructs or names type tn.
 func mentionsType(info *types.Info, e ast.Expr, tn *types.TypeName) bool {
 	found := false
-	ast.Inspect(e, func(n ast.Node) bool {
+	inspect(e, func(n ast.Node) bool {
 		if id, ok := n.(*ast.Ident); ok {
 			if info.Uses[id] == tn {
 				found = true
@@ -274,11 +274,11 @@ func init() {
 			kgr := r.P.Field("workers/operator", "Operator", "keyGroupRange")
 			uriF := r.P.Field("dkv/recovery", "CheckpointHandle", "URI")
 			isCkID := func(e ast.Expr) bool {
-				sel, ok := ast.Unparen(e).(*ast.SelectorExpr)
+				sel, ok := deref(info, e).(*ast.SelectorExpr)
 				return ok && prog.SelField(info, sel) == idF && prog.SelField(info, sel.X) == ckF
 			}
 			var handle types.Object
-			ast.Inspect(f.Decl.Body, func(nd ast.Node) bool {
+			inspect(f.Decl.Body, func(nd ast.Node) bool {
 				switch x := nd.(type) {
 				case *ast.CallExpr:
 					if r.P.CalleeFunc(info, x) == ckpt {
@@ -300,7 +300,7 @@ func init() {
 			})
 			ocT := r.P.TypeName("proto/snapshotpb", "OperatorCheckpoint")
 			found := false
-			ast.Inspect(f.Decl.Body, func(nd ast.Node) bool {
+			inspect(f.Decl.Body, func(nd ast.Node) bool {
 				cl, ok := nd.(*ast.CompositeLit)
 				if !ok || info.TypeOf(cl) != ocT.Type() {
 					return true
@@ -321,7 +321,7 @@ func init() {
 				}
 				okURI := false
 				if e, ok := got["DkvFileUri"]; ok {
-					if sel, ok := ast.Unparen(e).(*ast.SelectorExpr); ok && prog.SelField(info, sel) == uriF && handle != nil && prog.IdentObj(info, sel.X) == handle {
+					if sel, ok := deref(info, e).(*ast.SelectorExpr); ok && prog.SelField(info, sel) == uriF && handle != nil && prog.IdentObj(info, sel.X) == handle {
 						okURI = true
 					}
 				}
@@ -330,7 +330,7 @@ func init() {
 				}
 				okRange := 0
 				if e, ok := got["KeyGroupRange"]; ok {
-					ast.Inspect(e, func(m ast.Node) bool {
+					inspect(e, func(m ast.Node) bool {
 						if kv, ok := m.(*ast.KeyValueExpr); ok {
 							name := kv.Key.(*ast.Ident).Name
 							v := stripConv(info, kv.Value)
@@ -361,7 +361,7 @@ func init() {
 			startFn := r.P.FuncObj("connectors", "SourceSplitter.Start")
 			n := 0
 			var ck types.Object
-			ast.Inspect(f.Decl.Body, func(nd ast.Node) bool {
+			inspect(f.Decl.Body, func(nd ast.Node) bool {
 				switch x := nd.(type) {
 				case *ast.CallExpr:
 					if r.P.CalleeFunc(info, x) == cur {
@@ -383,7 +383,7 @@ func init() {
 			}
 			uses := func(e ast.Node) bool {
 				found := false
-				ast.Inspect(e, func(m ast.Node) bool {
+				inspect(e, func(m ast.Node) bool {
 					if id, ok := m.(*ast.Ident); ok && info.Uses[id] == ck {
 						found = true
 					}
@@ -392,7 +392,7 @@ func init() {
 				return found
 			}
 			okDeploy, okStart := false, false
-			ast.Inspect(f.Decl.Body, func(nd ast.Node) bool {
+			inspect(f.Decl.Body, func(nd ast.Node) bool {
 				call, ok := nd.(*ast.CallExpr)
 				if !ok {
 					return true
@@ -409,7 +409,7 @@ func init() {
 						if o := prog.IdentObj(info, call.Args[0]); o != nil {
 							// every definition of that variable derives from ck
 							derives, any := true, false
-							ast.Inspect(f.Decl.Body, func(m ast.Node) bool {
+							inspect(f.Decl.Body, func(m ast.Node) bool {
 								if as, ok := m.(*ast.AssignStmt); ok {
 									for i, l := range as.Lhs {
 										if prog.IdentObj(info, l) == o && i < len(as.Rhs) {
